@@ -601,22 +601,29 @@ class Ids:
         return len(self.objs)
 
 
+EXC_TAGS = {"TypeError": 1, "ValueError": 2, "KeyError": 3, "RuntimeError": 4, "SystemError": 5}
+
+
+def exc_tag(e):
+    return EXC_TAGS.get(type(e).__name__, 9)
+
+
 def probe(f):
-    """('val', v) | ('ae',) | ('exc',)"""
+    """('val', v) | ('ae',) | ('exc', tag)"""
     try:
         return ("val", f())
     except AttributeError:
         return ("ae",)
-    except Exception:
-        return ("exc",)
+    except Exception as e:
+        return ("exc", exc_tag(e))
 
 
 def enc_probe(p, ids):
-    # 0 AttributeError, 1 other exception, 2+i value i
+    # [0, 0] AttributeError, [1, tag] other exception, [2, i] value number i
     if p[0] == "ae":
         return [0, 0]
     if p[0] == "exc":
-        return [1, 0]
+        return [1, p[1]]
     return [2, ids.of(p[1])]
 
 
@@ -625,9 +632,9 @@ def is_sb(x):
 
 
 def extends_probe(v):
-    """how ``v.extends`` behaves: 0 present, 1 AttributeError, 2 other exception"""
+    """how ``v.extends`` behaves: [0] present, [1] AttributeError, [2, tag] other exception"""
     p = probe(lambda: v.extends)
-    return {"val": 0, "ae": 1, "exc": 2}[p[0]]
+    return [0] if p[0] == "val" else [1] if p[0] == "ae" else [2, p[1]]
 
 
 class Rows:
@@ -637,8 +644,8 @@ class Rows:
             r = f()
         except AttributeError:
             return [0, 0]
-        except Exception:
-            return [1, 0]
+        except Exception as e:
+            return [1, exc_tag(e)]
         return [2, ids.of(r)]
 
     @staticmethod
@@ -654,25 +661,42 @@ class Rows:
         prov = probe(lambda: ob.__provides__)
         cls = probe(lambda: ob.__class__)
         cprov = ("ae",)
-        implby = ("ae",)
         if cls[0] == "val":
             cprov = probe(lambda: cls[1].__provides__)
+        # the reads above are free of side effects; implementedBy(cls) is not (it stores the
+        # specification and the descriptors on the class), so the function under test runs first and
+        # implementedBy — idempotent from then on — is asked afterwards
+        from zope.interface.declarations import _empty
+        fresh = True      # will implementedBy(cls) have to create the class specification?
+        if cls[0] == "val":
+            try:
+                fresh = "__implemented__" not in cls[1].__dict__
+            except Exception:
+                fresh = True
+        out = Rows.outcome(lambda: providedBy(ob), ids)
+        out_gos = Rows.outcome(lambda: getObjectSpecification(ob), ids)
+        implby = ("ae",)
+        if cls[0] == "val":
             implby = probe(lambda: implementedBy(cls[1]))
+        if fresh and (out[0] != 2 or out_gos[0] != 2):
+            # a creating implementedBy that fails half-way (e.g. the metaclass refuses the
+            # __provides__ assignment after __implemented__ was stored) answers differently the
+            # second time: its first outcome cannot be probed separately, no row
+            return
         row = {
             "k": "pb", "op": n,
             "pb": enc_probe(pb, ids),
             "pb_sb": bool(pb[0] == "val" and is_sb(pb[1])),
-            "pb_ext": extends_probe(pb[1]) if pb[0] == "val" else 1,
+            "pb_ext": extends_probe(pb[1]) if pb[0] == "val" else [1],
             "prov": enc_probe(prov, ids),
             "prov_sb": bool(prov[0] == "val" and is_sb(prov[1])),
-            "cls": {"val": 2, "ae": 0, "exc": 1}[cls[0]],
+            "cls": enc_probe(cls, ids),
             "cprov": enc_probe(cprov, ids),
             "implby": enc_probe(implby, ids),
         }
-        from zope.interface.declarations import _empty
         row["empty"] = ids.of(_empty)
-        row["out"] = Rows.outcome(lambda: providedBy(ob), ids)
-        row["out_gos"] = Rows.outcome(lambda: getObjectSpecification(ob), ids)
+        row["out"] = out
+        row["out_gos"] = out_gos
         it.rows.append(row)
 
     @staticmethod
@@ -702,9 +726,8 @@ class Rows:
         except Exception:
             b = None
         row = {"k": "ib", "op": n, "is_type": isinstance(cls, type),
-               "dict": {"val": 2, "ae": 0, "exc": 1}[d[0]], "entry": entry,
+               "dict": [2] if d[0] == "val" else [0] if d[0] == "ae" else [1, d[1]], "entry": entry,
                "builtin": 0 if b is None else ids.of(b)}
-        before = entry[0]
         row["out"] = Rows.outcome(lambda: implementedBy(cls), ids)
         # only the fast-path rows (an existing specification is found) are judged by the model;
         # everything else is the shared Python fallback
@@ -761,8 +784,8 @@ class Rows:
                 if any("__providedBy__" in k.__dict__ for k in type(ob).__mro__):
                     return
                 # accessed through the class: inst is None -> getObjectSpecification(cls)
-                gos = Rows.outcome(lambda: getObjectSpecification(ob), ids)
                 out = Rows.outcome(lambda: ob.__providedBy__, ids)
+                gos = Rows.outcome(lambda: getObjectSpecification(ob), ids)
                 it.rows.append({"k": "osd", "op": n, "inst": False, "prov": [0, 0], "fallback": gos, "out": out})
             else:
                 d = None
@@ -778,8 +801,8 @@ class Rows:
                 except AttributeError:
                     pass
                 prov = probe(lambda: ob.__provides__)
-                fb = Rows.outcome(lambda: implementedBy(type(ob)), ids)
                 out = Rows.outcome(lambda: ob.__providedBy__, ids)
+                fb = Rows.outcome(lambda: implementedBy(type(ob)), ids)
                 it.rows.append({"k": "osd", "op": n, "inst": True, "prov": enc_probe(prov, ids), "fallback": fb,
                                 "out": out})
         elif name == "__provides__":
@@ -825,13 +848,16 @@ class Rows:
             elif isinstance(x, Implements):
                 kind = "impl"
             else:
+                # a foreign operand is described only if it compares like a plain object
+                t = type(x)
+                if any(getattr(t, m) is not getattr(object, m)
+                       for m in ("__eq__", "__ne__", "__lt__", "__le__", "__gt__", "__ge__")):
+                    return None
                 try:
                     nm, md = x.__name__, x.__module__
                 except AttributeError:
                     return ["anon", "", ""]
                 except Exception:
-                    return None
-                if type(x).__eq__ is not object.__eq__ or type(x).__lt__ is not object.__lt__:
                     return None
                 kind = "named"
             nm, md = x.__name__, x.__module__
@@ -841,6 +867,8 @@ class Rows:
         da, db = desc(a), desc(b)
         if da is None or db is None:
             return
+        if da[0] not in ("iface", "impl") and db[0] not in ("iface", "impl"):
+            return      # no specification involved: not our code
 
         def code(row):
             out = []
@@ -860,8 +888,7 @@ class Rows:
     def hash(it, n, a, ha):
         if len(it.rows) > 400:
             return
-        it.rows.append({"k": "hash", "op": n, "eq_tuple": ha == hash((a.__name__, a.__module__)),
-                        "stable": hash(a) == ha})
+        it.rows.append({"k": "hash", "op": n, "tuple": hash((a.__name__, a.__module__)), "h1": ha, "h2": hash(a)})
 
 
 def _pyval(v):
